@@ -115,7 +115,10 @@ claim("C13", "E7+E4+E5",
       "path can spin, and the same engine proves the 8 loops of the contextual-rule rewriter (token_tree::rewrite); this found two real hangs (`@a = [; - b];`, `anchorDef (wght=200:5 longident) 5 foo;`), both repaired. (G2) NO PANIC in the same "
       "modules: of 118 assertion / unwrap / index / overflow sites, 67 are infeasible given the token facts on every path reaching them, 10 are "
       "constant-index bounds checks, the other 41 are listed per (function, kind, count) with the reason they cannot fire - a new site is a violation; "
-      "auditing that list found two real panics (`table mark { } mark;`, `${a-12.5}`), both repaired. (X6) cyclic or too-deep includes are rejected "
+      "auditing that list found two real panics (`table mark { } mark;`, `${a-12.5}`), both repaired. (G3) VALIDATION DOES NOT PANIC ON ERROR-FREE TREES, "
+      "as writer/reader agreement: for every node kind the children the parser has emitted on every error-free path when it finishes the node (third mode of the dataflow) "
+      "are compared with the children that 71 typed-AST accessors unwrap (reader table generated from typed.rs, reviewed, guarded by a census of unwrap sites); this found five "
+      "inputs that parse cleanly and panic in validation (`pos cursive|base|ligature|mark <anchor..>..` without the glyph, `lookup ;;`, `sub a from;`), all repaired. (X6) cyclic or too-deep includes are rejected "
       "before the recursive tree assembly and the rejected edges are honoured by it. (L1) a necessary condition of losslessness: a single owner of the "
       "source cursor, the lexer pulled only by Parser::advance, every advance paired with AstSink::token. (L3) a necessary condition of 'diagnostics "
       "point inside the source on char boundaries': ranges handed to diagnostics are token/node ranges, not byte arithmetic (the two `pos..pos+1` helpers "
